@@ -263,6 +263,7 @@ type Unit struct {
 	RetCount   int
 	Canaries   []*Query
 	CallProbes map[string]*callProbe // vacuity probe per call site (first path reaching it)
+	BlockProbes map[int][]*Query     // up to 3 path conditions per basic block of the unit's function
 	loopOrd    map[*ssa.BasicBlock]int
 	loopBody   map[*ssa.BasicBlock]map[*ssa.BasicBlock]bool
 	SafetyOnly bool
@@ -358,7 +359,11 @@ func (u *Unit) assumeDirtyFrame(s *State, key string, h, h0 *Term) {
 	for _, df := range s.DirtyFrames {
 		for _, l := range df.locs {
 			if l.key == key {
-				cond = And(cond, Not(Eq(r, l.ref)))
+				if l.cond != nil {
+					cond = And(cond, Not(And(l.cond, Eq(r, l.ref))))
+				} else {
+					cond = And(cond, Not(Eq(r, l.ref)))
+				}
 			}
 		}
 	}
